@@ -153,8 +153,14 @@ def gen_case(rng):
             keep[int(rng.integers(0, n))] = True
     fmt = "pgen" if rng.random() < 0.3 else "vcf"
     case = {"n": n, "variants": variants, "lines": lines, "keep": keep, "target": target, "ids": ids,
-            "from_gts": from_gts, "fmt": fmt, "swap": int(rng.integers(0, 16)), "kind": "wellformed"}
+            "from_gts": from_gts, "fmt": fmt, "swap": int(rng.integers(0, 16)), "kind": "wellformed",
+            "via": "cli" if rng.random() < 0.25 else "api", "hapfmt": "gz" if rng.random() < 0.2 else "plain",
+            "chunk": int(rng.integers(1, 4)) if (fmt == "pgen" and rng.random() < 0.5) else None}
     r = rng.random()
+    if r > 0.95 and ids:
+        # the same --id given twice (outside the property's quantifier; model agreement only)
+        ids.insert(int(rng.integers(0, len(ids) + 1)), ids[int(rng.integers(0, len(ids)))])
+        case["kind"] = "dup-ids"
     if r < 0.04:
         case["target"] = "nowhere"
         case["kind"] = "absent-target"
@@ -205,22 +211,61 @@ def _files(case, d):
                 for vid, al in ln["vars"]:
                     q = posof.get(vid, 1)
                     f.write(f"V\t{ln['id']}\t{q}\t{q + 1}\t{vid}\t{al}\n")
+    order = None
+    if case.get("hapfmt") == "gz":
+        import gzip
+        from pathlib import Path
+        from haptools.index import index_haps
+        from haptools.logging import getLogger
+
+        index_haps(Path(hp), sort=True, output=Path(hp + ".gz"), log=getLogger("hv16i", "CRITICAL"))
+        hp = hp + ".gz"
+        order = {"lines": [], "vars": {}}
+        with gzip.open(hp, "rt") as f:
+            for ln in f:
+                t = ln.rstrip("\n").split("\t")
+                if t[0] in ("H", "R"):
+                    order["lines"].append(t[4])
+                elif t[0] == "V":
+                    order["vars"].setdefault(t[1], []).append([t[4], t[5]])
     keep = case["keep"]
     sset = None if keep is None else {s for s, k in zip(samples, keep) if k}
-    return gt, hp, sset
+    return gt, hp, sset, order
 
 
-def _run(target, gt, hp, sset, ids, from_gts, out):
+def _run(target, gt, hp, sset, ids, from_gts, out, via="api", chunk=None, sample_order=None):
     from pathlib import Path
     from haptools.ld import calc_ld
     from haptools.logging import getLogger
 
-    log = getLogger("hv16", "CRITICAL")
-    try:
-        calc_ld(target, Path(gt), Path(hp), None, sset, tuple(ids) if ids is not None else None, None, False,
-                from_gts, Path(out), log)
-    except Exception as e:  # noqa
-        return {"err": err_kind(e), "cls": type(e).__name__, "msg": str(e)[:160]}
+    if via == "cli":
+        from click.testing import CliRunner
+        from haptools.__main__ import main
+
+        args = ["ld", "--verbosity", "CRITICAL", "-o", out]
+        for s_ in (sample_order or []):
+            if sset is not None and s_ in sset:
+                args += ["-s", s_]
+        for i in ids or []:
+            args += ["-i", i]
+        if chunk:
+            args += ["-c", str(chunk)]
+        if from_gts:
+            args.append("--from-gts")
+        args += ["--", target, gt, hp]
+        res = CliRunner().invoke(main, args, catch_exceptions=True)
+        e = res.exception
+        if e is not None and not (isinstance(e, SystemExit) and e.code in (0, None)):
+            return {"err": err_kind(e), "cls": type(e).__name__, "msg": str(e)[:160]}
+        if res.exit_code != 0:
+            return {"err": 10, "cls": "SystemExit", "msg": (res.output or "")[-160:]}
+    else:
+        log = getLogger("hv16", "CRITICAL")
+        try:
+            calc_ld(target, Path(gt), Path(hp), None, sset, tuple(ids) if ids is not None else None, chunk, False,
+                    from_gts, Path(out), log)
+        except Exception as e:  # noqa
+            return {"err": err_kind(e), "cls": type(e).__name__, "msg": str(e)[:160]}
     rows = []
     with open(out) as f:
         for ln in f:
@@ -241,7 +286,7 @@ class LD(Relation):
     coq_case_type = "lcase"
     coq_model = "model_ld"
     coq_imports = ["PearsonQ", "C16_Model"]
-    budget = {"quick": 400, "thorough": 6000}
+    budget = {"quick": 700, "thorough": 10000}
     max_cases_per_shard = 60
     timeout_per_case = 60
     anchors = [("haptools/ld.py", "calc_ld"), ("haptools/ld.py", "pearson_corr_ld")]
@@ -269,19 +314,22 @@ class LD(Relation):
     def run_impl(self, case):
         d = tempfile.mkdtemp(prefix="hv_c16_")
         try:
-            gt, hp, sset = _files(case, d)
-            main = _run(case["target"], gt, hp, sset, case["ids"], case["from_gts"], os.path.join(d, "out.txt"))
+            gt, hp, sset, order = _files(case, d)
+            so = [f"S{i}" for i in range(case["n"])]
+            main = _run(case["target"], gt, hp, sset, case["ids"], case["from_gts"], os.path.join(d, "out.txt"),
+                        case.get("via", "api"), case.get("chunk"), so)
             sym = None
             if "ok" in main and main["ok"]:
                 b = main["ok"][case["swap"] % len(main["ok"])][0]
                 hap_ids = [l["id"] for l in case["lines"] if l["t"] == "H"]
-                second = _run(b, gt, hp, sset, None, case["target"] not in hap_ids, os.path.join(d, "out2.txt"))
+                second = _run(b, gt, hp, sset, None, case["target"] not in hap_ids, os.path.join(d, "out2.txt"),
+                              case.get("via", "api"), case.get("chunk"), so)
                 if "ok" in second:
                     hit = [r for r in second["ok"] if r[0] == case["target"]]
                     sym = [b, {"ok": hit[0][1]} if len(hit) == 1 else {"err": 97}]
                 else:
                     sym = [b, second]
-            return {"main": main, "sym": sym}
+            return {"main": main, "sym": sym, "order": order}
         finally:
             shutil.rmtree(d, ignore_errors=True)
 
@@ -302,6 +350,12 @@ class LD(Relation):
                          if ln["t"] == "H" else f"(RL {it(ln['id'])})")
         keep = case["keep"] if case["keep"] is not None else [True] * case["n"]
         ids = L.opt(case["ids"], lambda l: L.zl([it(x) for x in l]))
+        lines = case["lines"]
+        if isinstance(obs, dict) and obs.get("order"):
+            # a sorted, indexed .hap.gz was read: records in the order of that file
+            byid = {ln["id"]: ln for ln in lines}
+            od = obs["order"]
+            lines = [dict(byid[i], vars=od["vars"].get(i, [])) if byid[i]["t"] == "H" else byid[i] for i in od["lines"]]
         if not isinstance(obs, dict) or "main" not in obs:
             main, sym = {"err": (obs or {}).get("kind", 99)}, None
         else:
@@ -309,7 +363,7 @@ class LD(Relation):
         orow = lambda r: f"({it(r[0])}, {L.opt(r[1], L.z)})"
         mo = L.res(main, lambda rows: L.lst(rows, orow))
         so = L.opt(sym, lambda s: f"({it(s[0])}, {L.res(s[1], lambda v: L.opt(v, L.z))})")
-        return (f"(mkl {it(case['target'])} {L.lst(case['variants'], gv)} {L.lst(case['lines'], hl)} {L.bl(keep)} "
+        return (f"(mkl {it(case['target'])} {L.lst(case['variants'], gv)} {L.lst(lines, hl)} {L.bl(keep)} "
                 f"{ids} {L.b(case['from_gts'])} {mo} {so})")
 
     def nontrivial(self, case, obs):
@@ -321,7 +375,10 @@ class LD(Relation):
         hap_ids = [l["id"] for l in case["lines"] if l["t"] == "H"]
         out = [case["kind"], f"target={'hap' if case['target'] in hap_ids else 'var'}",
                f"mode=fromgts:{int(case['from_gts'])},ids:{int(case['ids'] is not None)}", f"fmt={case['fmt']}",
-               f"subset={int(case['keep'] is not None)}"]
+               f"subset={int(case['keep'] is not None)}", f"via={case.get('via', 'api')}",
+               f"hap={case.get('hapfmt', 'plain')}"]
+        if case.get("chunk"):
+            out.append("pgen-chunked")
         if any(l["t"] == "R" for l in case["lines"]):
             out.append("with-repeats")
         if isinstance(obs, dict) and "main" in obs:
